@@ -182,6 +182,10 @@ def sample(ctx, budget=1.0, hint=None, broken=None):
                 cur = cur + d * ln
                 if not cont and r.random() < 0.5:
                     cur += complex(r.randint(1, 3), r.randint(1, 3))
+            if r.random() < 0.4:
+                # a falsy point: some segment ends (or the path starts) exactly at the origin
+                z0 = r.choice([s_.end for s_ in segs] + [segs[0].start])
+                segs = [P.Line(s_.start - z0, s_.end - z0) for s_ in segs]
         else:
             for i in range(n):
                 scale = 1.0 if cls == 'float' else r.choice([1e-6, 1e-3, 1.0, 1e3])
